@@ -156,6 +156,11 @@ func body(c *hk.Ctx) {
 		prop = "C02"
 	}
 	c.Property = prop
+	switch prop {
+	case "C03", "C04", "C06", "C18":
+		bodyMulti(c, prop)
+		return
+	}
 	s := newSys(c)
 	sc := &scenario{}
 	c.Scenario = sc
